@@ -100,3 +100,7 @@ def check(ctx):
                             na[2], F.split_after(N, F.split_sub_calls(N, r, W), r, W))
             ctx.guard('R1.sub_calls', fsite(d), drv)
     ctx.count('mpi driver kernel call sites', nsites, 6)
+    # shared with C04: the per-call usage factor must be what the kernel really draws per call, and
+    # rank / size must come from the communicator that was passed in (otherwise the shares do not tile)
+    from .common import share
+    share(ctx, 'C04', 'R4/C04.', ['R2.usage', 'R8.'])
